@@ -26,6 +26,8 @@ pub struct Counters {
     pub injector_pushes: u64,
     pub injector_retries: u64,
     pub ring_push_full: u64,
+    /// lock attempts that found the shim mutex held by another logical thread
+    pub lock_contended: u64,
 }
 
 pub struct Sched {
@@ -356,6 +358,68 @@ pub mod atomic {
         }
         pub fn compare_exchange_weak(&self, cur: bool, new: bool, a: Ordering, b: Ordering) -> Result<bool, bool> {
             self.compare_exchange(cur, new, a, b)
+        }
+    }
+}
+
+pub mod sync {
+    //! Yield-aware mutex for sources compiled under the shim scheduler: every lock attempt
+    //! and every unlock is one `step`; a contended lock retries (each retry is a yield
+    //! point, so the holder gets scheduled). The API mirrors the part of
+    //! `std::sync::Mutex` the queue sources use.
+    use std::cell::UnsafeCell;
+    use std::ops::{Deref, DerefMut};
+    use std::sync::atomic::{AtomicBool, Ordering};
+
+    #[derive(Debug)]
+    pub struct PoisonError<G>(G);
+    impl<G> PoisonError<G> {
+        pub fn into_inner(self) -> G {
+            self.0
+        }
+    }
+    pub type LockResult<G> = Result<G, PoisonError<G>>;
+
+    #[derive(Debug, Default)]
+    pub struct Mutex<T> {
+        locked: AtomicBool,
+        v: UnsafeCell<T>,
+    }
+    unsafe impl<T: Send> Send for Mutex<T> {}
+    unsafe impl<T: Send> Sync for Mutex<T> {}
+
+    pub struct MutexGuard<'a, T> {
+        m: &'a Mutex<T>,
+    }
+
+    impl<T> Mutex<T> {
+        pub const fn new(v: T) -> Self {
+            Mutex { locked: AtomicBool::new(false), v: UnsafeCell::new(v) }
+        }
+        pub fn lock(&self) -> LockResult<MutexGuard<'_, T>> {
+            loop {
+                super::step("mutex.lock");
+                if self.locked.compare_exchange(false, true, Ordering::SeqCst, Ordering::SeqCst).is_ok() {
+                    return Ok(MutexGuard { m: self });
+                }
+                super::local_counters(|c| c.lock_contended += 1);
+            }
+        }
+    }
+    impl<T> Deref for MutexGuard<'_, T> {
+        type Target = T;
+        fn deref(&self) -> &T {
+            unsafe { &*self.m.v.get() }
+        }
+    }
+    impl<T> DerefMut for MutexGuard<'_, T> {
+        fn deref_mut(&mut self) -> &mut T {
+            unsafe { &mut *self.m.v.get() }
+        }
+    }
+    impl<T> Drop for MutexGuard<'_, T> {
+        fn drop(&mut self) {
+            self.m.locked.store(false, Ordering::SeqCst);
         }
     }
 }
